@@ -315,3 +315,16 @@ func FindsMemberCaseInsensitively(zr *zip.Reader, name string) *zip.File {
 	}
 	return nil
 }
+
+type exportedChunk struct{ Title string }
+
+// ToTextBlanksTitle violates R3.9 EXPORT-READS-ONLY: the "temporary" is the caller's own chunk.
+func ToTextBlanksTitle(chunks []*exportedChunk) string {
+	var sb strings.Builder
+	for _, ch := range chunks {
+		tmp := ch
+		tmp.Title = ""
+		sb.WriteString(tmp.Title)
+	}
+	return sb.String()
+}
